@@ -461,6 +461,74 @@ static void run_program(long idx) {
     M = nullptr;
 }
 
+// ---------------------------------------------------------------- anonymous chains
+// The program keeps NO Promise object: chains are built from temporaries, the root's Deferred is dropped right after it has
+// been used, and inner promises returned by continuations are settled only afterwards.  Every outcome must still be delivered
+// exactly once: what keeps a derived promise alive is the framework's business.
+struct AnonLink { int kind; /*0 value, 1 promise*/ int plan; /*0 pending 1 resolved 2 rejected*/ int rk; /*0 throw 1 custom*/ int ok = 0, rej = 0; long seenVal = 0; int seenExc = -1; Async::Deferred<int> inner; bool innerMade = false; };
+static void run_anon_chain(long idx) {
+    Rng r(g_opts.seed * 7000003ull + (uint64_t)idx);
+    set_case(idx, Json().num("i", idx).str("phase", "c11-anon").num("seed", (long long)g_opts.seed).done());
+    int L = r.range(1, 4);
+    auto links = std::make_shared<std::vector<AnonLink>>((size_t)L);
+    std::string text = "anonymous chain:";
+    for (int i = 0; i < L; i++) { AnonLink& l = (*links)[(size_t)i]; l.kind = r.chance(2, 3) ? 1 : 0; l.plan = r.chance(2, 3) ? 0 : r.range(1, 2); l.rk = r.chance(3, 4) ? 0 : 1;
+        text += std::string(" then(") + (l.kind ? (l.plan == 0 ? "promise-pending" : l.plan == 1 ? "promise-resolved" : "promise-rejected") : "value") + "," + (l.rk ? "custom" : "throw") + ")"; }
+    int finalOk = 0, finalRej = 0; long finalVal = 0; int finalExc = -1;
+    bool rootOk = r.chance(2, 3); int rootVal = r.range(-50, 50); bool keepResolverUntilEnd = r.chance(1, 3);
+    std::vector<int> innerOutcome((size_t)L); for (auto& x : innerOutcome) x = r.chance(2, 3) ? 1 : 0;   // 1 fulfil, 0 reject
+    text += std::string("; root ") + (rootOk ? "resolved" : "rejected") + (keepResolverUntilEnd ? ", resolver kept" : ", resolver dropped before the inner promises settle");
+    auto* dRoot = new Async::Deferred<int>();
+    g_cpu.arm(5.0);
+    {
+        Async::Promise<int> root([&](Async::Deferred<int> d) { *dRoot = std::move(d); });
+        auto cont = [links](int i) { return [links, i](int v) -> Async::Promise<int> { AnonLink& l = (*links)[(size_t)i]; l.ok++; l.seenVal = v;
+                if (l.plan == 1) return Async::Promise<int>::resolved(v + 7);
+                if (l.plan == 2) return Async::Promise<int>::rejected(TestExc(9000 + i));
+                return Async::Promise<int>([&l](Async::Deferred<int> d) { l.inner = std::move(d); l.innerMade = true; }); }; };
+        auto vcont = [links](int i) { return [links, i](int v) { AnonLink& l = (*links)[(size_t)i]; l.ok++; l.seenVal = v; return v + 1; }; };
+        auto rejc = [links](int i) { return [links, i](std::exception_ptr p) { AnonLink& l = (*links)[(size_t)i]; l.rej++; l.seenExc = exc_id(p); if (l.rk == 0) Async::Throw(p); }; };
+        // build link by link from temporaries; `cur` is overwritten, so no handle to an intermediate promise survives
+        Async::Promise<int> cur = (*links)[0].kind ? root.then(cont(0), rejc(0)) : root.then(vcont(0), rejc(0));
+        for (int i = 1; i < L; i++) cur = (*links)[(size_t)i].kind ? cur.then(cont(i), rejc(i)) : cur.then(vcont(i), rejc(i));
+        cur.then([&](int v) { finalOk++; finalVal = v; }, [&](std::exception_ptr p) { finalRej++; finalExc = exc_id(p); });
+    }   // root, cur: gone
+    try {
+        if (rootOk) dRoot->resolve(rootVal); else dRoot->reject(TestExc(77));
+        if (!keepResolverUntilEnd) { delete dRoot; dRoot = nullptr; }
+        // settle pending inner promises as they appear (each one unblocks the next link)
+        for (int i = 0; i < L; i++) { AnonLink& l = (*links)[(size_t)i]; if (l.kind == 1 && l.plan == 0 && l.innerMade) { if (innerOutcome[(size_t)i]) l.inner.resolve((int)(l.seenVal + 7)); else l.inner.reject(TestExc(8000 + i)); } }
+    } catch (const std::exception& e) { violation("c11:anon:settle-throws", std::string("an exception surfaced in the settling party of an anonymous chain: ") + e.what(), Json().num("i", idx).num("seed", (long long)g_opts.seed).str("program", text).done()); }
+    delete dRoot;
+    g_cpu.disarm();
+    g_evals++;
+    // sequential expectation
+    bool isVal = rootOk; long val = rootVal; int exc = 77; bool abstain = false;
+    auto wit = [&]() { return Json().num("i", idx).num("seed", (long long)g_opts.seed).str("program", text).done(); };
+    for (int i = 0; i < L && !abstain; i++) {
+        AnonLink& l = (*links)[(size_t)i]; std::string ln = "link " + std::to_string(i) + " of '" + text + "'";
+        if (isVal) {
+            if (l.ok != 1 || l.rej != 0) { violation(std::string("c11:anon:fulfil-callback-") + (l.ok == 0 ? "missing" : "count") + (l.kind && i > 0 && (*links)[(size_t)i - 1].kind && (*links)[(size_t)i - 1].plan == 0 ? ":after-pending-inner" : ""), ln + ": fulfilment continuation ran " + std::to_string(l.ok) + " times, rejection continuation " + std::to_string(l.rej), wit()); abstain = true; break; }
+            if (l.seenVal != val) { violation("c11:anon:fulfil-value", ln + ": received " + std::to_string(l.seenVal) + " want " + std::to_string(val), wit()); abstain = true; break; }
+            if (l.kind == 0) val = val + 1;
+            else if (l.plan == 1) val = val + 7;
+            else if (l.plan == 2) { isVal = false; exc = 9000 + i; }
+            else if (innerOutcome[(size_t)i]) val = val + 7; else { isVal = false; exc = 8000 + i; }
+        } else {
+            if (l.rej != 1 || l.ok != 0) { violation(std::string("c11:anon:reject-callback-") + (l.rej == 0 ? "missing" : "count"), ln + ": rejection continuation ran " + std::to_string(l.rej) + " times, fulfilment continuation " + std::to_string(l.ok), wit()); abstain = true; break; }
+            if (l.seenExc != exc) { violation("c11:anon:reject-exception", ln + ": received exception " + std::to_string(l.seenExc) + " want " + std::to_string(exc), wit()); abstain = true; break; }
+            if (l.rk != 0) abstain = true;   // a rejection handler that does not rethrow: the statement is silent about what follows
+        }
+    }
+    if (!abstain) {
+        if (isVal && (finalOk != 1 || finalRej != 0 || finalVal != val)) violation("c11:anon:final-outcome:fulfilled", "'" + text + "': the last continuation saw ok=" + std::to_string(finalOk) + " rej=" + std::to_string(finalRej) + " value " + std::to_string(finalVal) + ", want one fulfilment with " + std::to_string(val), wit());
+        if (!isVal && (finalRej != 1 || finalOk != 0 || finalExc != exc)) violation("c11:anon:final-outcome:rejected", "'" + text + "': the last continuation saw ok=" + std::to_string(finalOk) + " rej=" + std::to_string(finalRej) + " exception " + std::to_string(finalExc) + ", want one rejection with " + std::to_string(exc), wit());
+    }
+    g_distinct.add(text);
+    count("anonymous_chains");
+    if (g_samples_left > 0 && (idx % 1009) == 13) { g_samples_left--; sample(Json().num("i", idx).str("program", text).done()); }
+}
+
 static bool g_finished = false;
 static void finish_output(bool died) {
     if (g_finished) return;
@@ -483,10 +551,10 @@ int main(int argc, char** argv) {
     install_handlers();
     g_cpu.init();
     g_skip_until = g_opts.num("skip", -1);
-    if (g_opts.mode == "replay") { g_opts.seed = (uint64_t)g_opts.num("seed", 1); run_program(g_opts.num("index", 0)); printf("%s", ""); finish_output(false); return 0; }
+    if (g_opts.mode == "replay") { g_opts.seed = (uint64_t)g_opts.num("seed", 1); { long ix = g_opts.num("index", 0); if (ix % 8 == 5) run_anon_chain(ix); else run_program(ix); } printf("%s", ""); finish_output(false); return 0; }
     for (long i = g_opts.shard; i < g_opts.cases * g_opts.nshards; i += g_opts.nshards) {
         if (i <= g_skip_until) continue;
-        run_program(i);
+        if (i % 8 == 5) run_anon_chain(i); else run_program(i);
     }
     finish_output(false);
     return 0;
